@@ -243,7 +243,10 @@ func (k *Walker) PathArgs(cmd string) []string {
 					a = strings.TrimSuffix(a, "/")
 				}
 			default:
-				a = "zz/../" + a
+				// "<existing dir>/../x" resolves at the OS level; a non-existing first component would not
+				if d, ok := k.pick(k.wtDirs()); ok && !strings.Contains(d, "/") {
+					a = d + "/../" + a
+				}
 			}
 		}
 		args = append(args, a)
